@@ -20,7 +20,7 @@ def main():
     for src in sys.argv[1:]:
         for name in sorted(os.listdir(src)):
             d = os.path.join(src, name)
-            if not os.path.isdir(d) or not os.path.exists(os.path.join(d, 'patch.diff')):
+            if not os.path.isdir(d) or not all(os.path.exists(os.path.join(d, f)) for f in ('patch.diff', 'demo.py', 'meta.json')):
                 continue
             dst = os.path.join(VERIF, 'seeded', name)
             if os.path.exists(dst):
